@@ -253,7 +253,8 @@ pub fn add_liars(t: &mut Trace, r: &mut Rng, stats: &mut Probes) {
         if inside_soak || raw == st {
             continue;
         }
-        t.events.insert(pos, Ev::Liar { raw, st });
+        let fickle = r.chance(1, 3);
+        t.events.insert(pos, Ev::Liar { raw, st, fickle });
         let rpos = (pos + 1 + gap).min(t.events.len());
         t.events.insert(rpos, Ev::Reset);
         stats.faults_fired[F_LIAR] += 1;
